@@ -70,7 +70,9 @@ def run_shard(spec):
         twin = P.Runner(hg.world)
         for op in ops:
             twin.exec_op(op)
-        leaves = [l for l in hg.locs if l["group"] == "leaf"]
+        # "leaf references" of the graph: locations without a definition (top-level leaves and nested members)
+        leaves = [l for l in hg.locs if l["group"] == "leaf" or
+                  (hg.shadow.ckey(l["path"]) not in hg.shadow.defs and l["kind"] == "float")]
         for sub in range(rng.randrange(2, 5)):
             args = rng.sample(leaves, rng.randrange(1, 5))
             names = ["a%d" % i for i in range(len(args))]
